@@ -101,6 +101,20 @@ def main():
             r['failed'] = [{'obligation': o, 'text': 'no verdict from the back end (unknown/timeout)'} for o in r['undecided_obligations']]
             r['status'] = 'refuted'
             r['only_unknown'] = True
+        if r['status'] == 'undecided' and 'EXTRACTION-BREAK' in (r.get('reason') or '') and (units[n].get('replay') or '').split()[:1] == ['c18_native']:
+            # the function can no longer be brought within the verifier's reach: a BOUNDED stand-in takes over -- the native program
+            # drives the REAL template (from the tree under check, ASan/UBSan) on every input of its small scope and compares with the
+            # naive definition of the property statement.  A failing input found this way is a violation with a real input; a clean run
+            # leaves the unit undecided (nothing is proved).
+            import replay as _replay
+            nat = _replay.run(units[n], a.prop, [], os.path.join(driver.WORK, 'units', n, 'native_standin'))
+            if nat and nat.get('verdict') == 'reproduced':
+                r['status'] = 'refuted'
+                r['failed'] = [{'obligation': n + '.native-bounded-standin', 'text': 'extraction break (%s); bounded native stand-in %s finds a failing input' % ((r.get('reason') or '')[:120], units[n]['replay'])}]
+                r['native_standin'] = nat
+                violations.append((r, {'verdict': 'violation', 'replay': nat.get('file'), 'failing_input': True, 'reason': 'bounded native stand-in'}, r['failed']))
+                continue
+            r['reason'] = (r.get('reason') or '') + ' | bounded native stand-in (%s): %s' % (units[n]['replay'], (nat or {}).get('verdict'))
         if r['status'] == 'undecided':
             undecided.append(r)
         elif r['status'] == 'refuted':
